@@ -34,8 +34,11 @@ def feasible_shape(ctx, rule='A5'):
         raise AnalysisError('DSG.feasible vanished')
     cfg = build_cfg(fn)
     trues = guards.return_nodes(cfg, lambda r: isinstance(r.value, ast.Constant) and r.value.value is True)
-    if not trues:
-        raise AnalysisError('DSG.feasible: no `return True`')
+    # `return not <test>`: true exactly on the negative side of the test
+    neg = guards.return_nodes(cfg, lambda r: isinstance(r.value, ast.UnaryOp) and isinstance(r.value.op, ast.Not))
+    if not trues and not neg:
+        raise AnalysisError('DSG.feasible: no return that can report feasibility')
+    trues = trues + neg
     chk = guards.call_nodes(cfg, '_check_unconnected_connectors')
     guards.check_passes(ctx, rule, fn, trues, chk, 'connectors-checked',
                         'a graph is reported feasible only after the unconnected-connector check ran')
@@ -50,7 +53,14 @@ def feasible_shape(ctx, rule='A5'):
                     ok = True
     ctx.ob(rule, fkey(fn, rule, 'unconnectable-means-infeasible'), ok, fn.where,
            'the error raised for an unconnectable connector is turned into `feasible == False`', '')
-    guards.check_guarded(ctx, rule, fn, trues,
+    for n_ in neg:
+        x_ = n_.ast.value.operand
+        ctx.ob(rule, fkey(fn, rule, 'no-confirmed-incompatibility'), isinstance(x_, ast.Call) and
+               call_name(x_) == 'has_confirmed_incompatibility_edges', f'{fn.module.relpath}:{n_.lineno}',
+               'a graph is reported feasible only on the negative side of the test for confirmed incompatibility '
+               'edges', short(n_.ast))
+    if [t_ for t_ in trues if t_ not in neg]:
+        guards.check_guarded(ctx, rule, fn, [t_ for t_ in trues if t_ not in neg],
                          lambda atom, truth: truth is False and isinstance(atom, ast.Call) and
                          call_name(atom) == 'has_confirmed_incompatibility_edges', set(),
                          'no-confirmed-incompatibility',
